@@ -99,4 +99,25 @@ theorem tie_calls_Source :
        ("result.Format", ["w"], "ignored")] := by
   first | exact Or.inl rfl | exact Or.inr rfl
 
+/-! ### round 5e: the package-level tables are constants (what the model's `httpMethods` / `keywords` assume) -/
+
+/-- the only place where a package-level slice itself (not a copy) is handed to a callee: the route's http method -/
+theorem tie_spreadSites :
+    Extracted.C20.spreadSites = [("Parser.parseRouteStmt", "p.advanceIfPeekTokenIs(token.HttpMethods...)")] := by rfl
+
+/-- NO function of parser / scanner / token / format / ast writes through a slice or variadic parameter (or a local alias
+of one: `x := p[:0]; append(x, …)`, `p[i] = v`, copy, sort): whatever a spread site hands down stays as it was, so
+token.HttpMethods is the same table for every call and every instance -/
+theorem tie_no_param_writes : Extracted.C20.paramWrites = [] := by rfl
+
+/-- with both: every table a callee can reach through a spread site is never written, i.e. `isMethod` of the model is
+the same function before and after any number of calls -/
+theorem tie_tables_constant :
+    (∀ site ∈ Extracted.C20.spreadSites, ∀ w ∈ Extracted.C20.paramWrites, False) ∧
+    Extracted.C20.httpMethods = GoZero.C20.httpMethods := by
+  refine ⟨?_, by rfl⟩
+  intro _ _ w hw
+  rw [tie_no_param_writes] at hw
+  cases hw
+
 end GoZero.C20.Tie
